@@ -239,4 +239,23 @@ PROPS['C10'] = dict(
     technique='Lean 4 lemmas over the DTW recurrence + z3 bridge obligations + bounded law sweep on the real engines',
 )
 
+PROPS['C19'] = dict(
+    modules=['contracts.similarity_py'],
+    contracts=['similarity.distance_to_similarity', 'similarity.squash'],
+    lemmas=[],
+    level='proof',
+    level_text='The real distance_to_similarity and squash are executed symbolically on two arbitrary elements of a '
+               'non-negative array (array statistics are symbols constrained only by what every such array satisfies) and '
+               'proved over the reals, per method and parameter form: non-increasing (resp. non-decreasing) in the input, '
+               'zero distance gives the maximal similarity, values in [0,1] under the default scale, and the documented '
+               'formula when parameters are explicit; every method name reaches its own branch.',
+    level_note='Level R: machine arithmetic treated as mathematical; exp/log/sqrt/power are uninterpreted functions with '
+               'their defining properties (specs/reals.py); NumPy broadcasting and statistics per A3. Idempotence of '
+               're-applying with returned parameters is immediate from the explicit-parameter cases and is not a separate '
+               'obligation. cover_quantile tuple forms and keep_sign with negative inputs are not covered.',
+    trusted_base=['A1', 'A3: NumPy elementwise semantics / statistics', 'machine arithmetic treated as mathematical', A7],
+    assumptions=['A1', 'A3', 'reals for floats', A7],
+    not_decided=['cover_quantile tuple forms; keep_sign on arrays with negative entries; return_params=True tuple results'],
+)
+
 NOT_APPLICABLE = {p: 'not decided yet: machinery for this property is still being built (see DESIGN.md §9 order of work)' for p in ['C01', 'C02', 'C03', 'C04', 'C05', 'C06', 'C07', 'C08', 'C09', 'C10', 'C11', 'C12', 'C13', 'C14', 'C15', 'C16', 'C17', 'C18', 'C19', 'C20'] if p not in PROPS}
